@@ -13,9 +13,9 @@ DEMO_FEATURES="$(python3 -c "import json,sys;print(json.load(open('$D/meta.json'
 DEMO_ENV="$(python3 -c "import json,sys;print(json.load(open('$D/meta.json')).get('demo_env',''))")"
 cp "$D/seeded_demo.rs" tests/seeded_demo.rs
 run_demo() { env $DEMO_ENV RUSTFLAGS="$DEMO_FLAGS" cargo test --offline ${DEMO_FEATURES:+--features $DEMO_FEATURES} --test seeded_demo "$@" >"$1.log" 2>&1; echo $?; }
-A=$( (env $DEMO_ENV RUSTFLAGS="$DEMO_FLAGS" cargo test --offline ${DEMO_FEATURES:+--features $DEMO_FEATURES} --test seeded_demo >/tmp/wt/confirm_demo_without.log 2>&1; echo $?) )
+A=$( (eval "env $DEMO_ENV RUSTFLAGS=\"$DEMO_FLAGS\" cargo test --offline ${DEMO_FEATURES:+--features $DEMO_FEATURES} --test seeded_demo" >/tmp/wt/confirm_demo_without.log 2>&1; echo $?) )
 git apply "$D/patch.diff" || { echo "patch does not apply"; cd /; git -C /repo worktree remove --force "$WT"; exit 2; }
-B=$( (env $DEMO_ENV RUSTFLAGS="$DEMO_FLAGS" cargo test --offline ${DEMO_FEATURES:+--features $DEMO_FEATURES} --test seeded_demo >/tmp/wt/confirm_demo_with.log 2>&1; echo $?) )
+B=$( (eval "env $DEMO_ENV RUSTFLAGS=\"$DEMO_FLAGS\" cargo test --offline ${DEMO_FEATURES:+--features $DEMO_FEATURES} --test seeded_demo" >/tmp/wt/confirm_demo_with.log 2>&1; echo $?) )
 rm tests/seeded_demo.rs
 cargo test --workspace --no-fail-fast --offline >/tmp/wt/confirm_suite.log 2>&1; C=$?
 PASSED=$(grep -E "^test result: ok" /tmp/wt/confirm_suite.log | sed -E 's/.* ([0-9]+) passed.*/\1/' | paste -sd+ | bc)
